@@ -27,7 +27,7 @@ def specs(tier):
         out.append(spec("opring", "unit", ["^", "A", "B"]))
         out.append(spec("hollow", "tinyring", ["|", "A", "B"], lim="1/20"))
         out.append(spec("hollow", "tinyring", ["^", "A", "B"], lim="1/20"))
-        out.append(spec("square", "hollow2", ["-", "A", "B"], lim=1))  # the right operand has several curves
+        out.append(spec("square", "hollow2", ["-", "A", "B"], lim="3/2"))  # the right operand has several curves
         out.append(spec("hbar", "vbar", ["-", "A", "B"], lim="1/3"))  # a result with two loops, each made of pieces of both operands
         out.append(spec("hbar", "vbar", ["^", "A", "B"], lim="1/3"))
         return out
